@@ -43,6 +43,23 @@ CLAIMED["C11"] = (TECH,
 CLAIMED["C12"] = (TECH,
    "Proved for all environment texts: the GetEnv modifier leaves everything unchanged for an unset/empty variable, stores true/false for any casing of true/false on bools, stores the text / strconv value for string/int/float kinds and marks the option called with the variable's name, keeps the default on invalid numerals (env.*); Save is a pure overwrite of the receiver (save.*), and the walk rewrites UsedAlias on every match (pair.resolved.called) - so a later command-line occurrence wins.",
    COMMON_NOTE + " Program order (definers run before Parse) is the user's main(); os.Getenv is an uninterpreted total function.", "DESIGN.md section 4 C12")
-CLAIMED["C18"] = (TECH, "wip", COMMON_NOTE, "DESIGN.md section 4 C18")
-CLAIMED["C16"] = (TECH, "wip", COMMON_NOTE, "DESIGN.md section 4 C16")
-NOT_APPLICABLE = {p: _todo for p in ["C07","C13","C14","C15","C17","C19","C20"]}
+DAG_NOTE = ("ASSUMED (not proved): the semantics of go/channels/select/sync.Mutex as ghost events (DESIGN.md 2.5): a received message was sent by a spawned reporter/worker and names a vertex of the graph (channel invariant), "
+            "a buffered channel of capacity m admits at most m un-received sends, a mutex has one owner, send happens-before receive (Go memory model). Schedules, fairness and liveness are not modelled: "
+            "what is proved is every sequential ingredient - the scheduler loop body per iteration, the readiness function, the goroutine bodies against their contracts and frames. "
+            "Global predicates on all Vertex objects (non-nil edges, status range) and Retries < MaxInt are preconditions; user task functions are assumed not to rewire the graph. " + COMMON_NOTE)
+CLAIMED["C13"] = (TECH,
+   "Proved for all graphs/statuses: getNextVertex returns only a registered vertex that is pending/skip with every dependency done or skipped (next.ready); the scheduler iteration that starts a real worker does so only with an empty error list for a vertex that was pending with all dependencies settled at the head of the iteration and marks it in-progress first (launch.real); at most one event per iteration (one.event); the worker's frame excludes task status and the error list (status is written by the scheduler loop only); the worker calls the task function between 1 and Retries+1 times, strictly sequentially, stopping at the first nil, and reports that last result once (worker.*, att.*).",
+   DAG_NOTE + " Not decided here: visibility of a dependency's writes (Go memory model) and the whole-run induction 'done and no error recorded implies returned nil' (Tier B of DESIGN.md C13).", "DESIGN.md section 4 C13")
+CLAIMED["C14"] = (TECH,
+   "Proved per scheduler iteration: a received message marks its vertex done; a non-skip error appends exactly one entry wrapping it, nil/skip appends nothing, ErrorSkipParents marks every parent (skipParents: transitively, writing nothing but skip) (recv.*); with a non-empty error list a ready vertex is reported as skipped without running (launch.failed, errmsg.one), a skip-marked vertex is reported with nil without running (launch.skip, skipmsg.one); cancellation appends one entry once and keeps the list non-empty so no real worker can start afterwards (cancel.once, sched.cancelled, launch.real); Run returns nil only with an empty error list and non-nil with a non-empty one; the loop is left only when every vertex is done (exit.alldone, next.alldone).",
+   DAG_NOTE + " 'In-flight tasks are allowed to finish' is a liveness statement and not decided.", "DESIGN.md section 4 C14")
+CLAIMED["C15"] = (TECH,
+   "Proved: the semaphore channel is created with capacity exactly maxParallel >= 1 (sched.cap, setmax); every call of a task function happens after this worker's send into the semaphore and before its single deferred receive, and with the task lock taken and released exactly once (att.held, worker.slot, worker.lock); in serial mode nothing is started while any vertex is in progress (next.serial, launch.serial).",
+   DAG_NOTE + " The bound 'at most m running' follows from these facts only under the assumed channel-capacity and mutex axioms. Output buffering (one Write per attempt under the buffer mutex) is verified for safety only.", "DESIGN.md section 4 C15")
+CLAIMED["C16"] = (TECH,
+   "Proved for all construction histories (each public construction call preserves the representation invariant WF): the vertex table maps each ID to one vertex with a runnable task and every edge-list entry IS the registered vertex of its ID - re-adding a known task keeps its vertex (addtask.*, depends.*, retries.wf); TaskDependsOn records an edge on both ends (dep.edge); the cycle check returns only ErrorGraphHasCycle errors and Run returns an error before any spawn when definition errors exist (visit.cycle, dfs.cycle, run.early); getNextVertex is complete: if it returns nothing and nothing blocks it, no vertex is ready, and it reports all-done exactly when every status is done (next.complete, next.finished, next.alldone).",
+   DAG_NOTE + " NOT decided: termination of Run under fair schedules (liveness), 'acyclic graphs are not rejected' and the full topological-order postcondition of DepthFirstSort.", "DESIGN.md section 4 C16")
+CLAIMED["C18"] = (TECH,
+   "Proved: the per-option synopsis entry mentions the option's synopsis for every one of the 12 kinds, bracketed iff not required (syn.*); the option-list entry contains the synopsis, the default iff not required, and the environment variable iff bound (list.*); Option.Synopsis puts every alias with its dashes into the synopsis (synopsis.aliases); helpOutput's option list holds every record of the level's table exactly once, aliases filtered (hopts.*), given every record is registered under its own name (NamesOK, preserved by every definer and modifier).",
+   COMMON_NOTE + " The section renderers help.Synopsis / OptionList / CommandList as wholes (iteration over the sorted lists, line wrapping) and wrapFn/pad are TRUSTED frames here: 'each list element is rendered by one entry call' and the command list are not proved. Same text through the three routes: each route's output is helptext(node) by construction (naming clause).", "DESIGN.md section 4 C18")
+NOT_APPLICABLE = {p: _todo for p in ["C07","C17","C19","C20"]}
